@@ -695,7 +695,7 @@ func check(prop string, seed uint64, tier string, maxRuns, workers int, base, ve
 	ev["level"] = levelOf(prop)
 	ev["coverage"] = cov
 	ev["assumptions"] = []string{
-		"the typed instrumenter (verifinst rules R1-R13) preserves single-goroutine semantics",
+		"the typed instrumenter (verifinst rules R1-R15) preserves single-goroutine semantics",
 		"interleavings are explored at the granularity of instrumented yield points (locks, channels, sockets, shared-struct field accesses, loop back-edges)",
 		"reference actors (Demon, operator, service, SOCKS client) are faithful to payloads/Demon and client/ sources",
 	}
